@@ -14,3 +14,5 @@ pub use color::Color;
 pub use line::Line;
 pub use pen::Pen;
 pub use vt::Vt;
+#[cfg(feature = "verif")]
+pub mod verif;
